@@ -201,7 +201,7 @@ pub fn gen_cases(cfgs: &[Config], cap: usize, full_menu: bool, label_filter: &dy
                         out.push(FCase {
                             cfg: ci,
                             msgs: vec![*mi],
-                            muts: vec![MsgMut { class: "struct:paired".into(), detail: format!("both branches altered at {pa:?}/{pb:?}"), bytes: Arc::new(encode_vec(&v2)), malformed: false, path: Some(pa.clone()), node: Some(node) }],
+                            muts: vec![MsgMut { class: "struct:paired".into(), detail: format!("both branches altered at {pa:?}/{pb:?}"), bytes: Arc::new(encode_vec(&v2)), malformed: false, path: Some(pa.clone()), node: Some(node), dynamic: None }],
                             label: m.label.clone(),
                             field: format!("{}[paired]", m.label),
                             rule: Rule::Always,
@@ -237,7 +237,17 @@ pub struct FResult {
 }
 
 pub fn faults_of(cfg: &Config, c: &FCase) -> Vec<Fault> {
-    c.msgs.iter().zip(&c.muts).map(|(mi, mm)| send_fault(&cfg.honest.msgs[*mi], mm.bytes.clone())).collect()
+    c.msgs
+        .iter()
+        .zip(&c.muts)
+        .map(|(mi, mm)| {
+            let mut f = send_fault(&cfg.honest.msgs[*mi], mm.bytes.clone());
+            if let Some(d) = &mm.dynamic {
+                f.mutation = crate::exec::Mutation::Fn(d.clone());
+            }
+            f
+        })
+        .collect()
 }
 
 pub fn run_faults(cfg: &Config, faults: Vec<Fault>, taps: Vec<crate::hooks::TapSpec>, probes: bool, worker: usize) -> (FResult, RunResult<Vec<bool>>) {
@@ -410,7 +420,7 @@ pub fn gen_pair_cases(cfgs: &[Config], labels: &[&str], max_bools: usize) -> Res
                         out.push(FCase {
                             cfg: ci,
                             msgs: vec![*mi],
-                            muts: vec![MsgMut { class: "struct:pair".into(), detail: format!("bits flipped at {:?} and {:?}", bools[a], bools[b]), bytes: Arc::new(encode_vec(&v2)), malformed: false, path: Some(bools[a].clone()), node: Some(NodeMut::FlipBool) }],
+                            muts: vec![MsgMut { class: "struct:pair".into(), detail: format!("bits flipped at {:?} and {:?}", bools[a], bools[b]), bytes: Arc::new(encode_vec(&v2)), malformed: false, path: Some(bools[a].clone()), node: Some(NodeMut::FlipBool), dynamic: None }],
                             label: m.label.clone(),
                             field: format!("{}[pair]", m.label),
                             rule: Rule::Always,
